@@ -13,6 +13,9 @@ CHECKS = {
     'C06': ('exploration', 'independent recency/frequency model decides the exact LRU/MRU victim and the LFU/RR validity predicate after every overflow; thorough tier adds a bounded-exhaustive sweep of all 5^7 histories x 48 configs', 'usage model rebuilt from observed resident sets only; bulk load() excluded (no usage record)', PBT + 'reference policy model; bounded-exhaustive enumeration in the thorough tier'),
     'C07': ('exploration', 'after every call: victims are in the archive with the same value, archive monotone, every computed result retrievable; 12 archive backends', 'alias-free keys for dir archives; archive contents read through __asdict__', PBT + 'history invariant oracle over archive snapshots'),
     'C15': ('exploration', 'per-call ground truth for hit/miss/load from the observed pre-state and the evaluation log; resets; size/maxsize fields; raising calls', 'f.key() identifies the call (checked separately by C18)', PBT + 'per-step ground-truth oracle'),
+    'C16': ('exploration', '(a) raising calls: same exception object, one evaluation, state unchanged, and a twin run without the raising calls is indistinguishable afterwards; (b) safe decorators with hostile arguments under every keymap degrade to plain evaluation', 'twin equivalence observed through public state; hostile objects limited to unhashable / unencodable ones (raising __eq__ is outside the statement)', PBT + 'metamorphic twin-run oracle + differential oracle'),
+    'C18': ('exploration', 'key() equals the storage key of every miss, lookup() agrees with the resident set, neither touches state, and a twin run without introspection ops is indistinguishable; ignore/tol/deep settings included', 'residency for archives used directly as the cache is the archive own membership test', PBT + 'metamorphic twin-run oracle + per-step predicates'),
+    'C20': ('exploration', 'dill round trip of the decorated function: equal contents/info/config, then continuation on original vs clone (persistent storage rewound in between) compared step by step; independence and shared-store visibility', 'sqlite-backed caches do not pickle and are excluded', PBT + 'round-trip + lock-step differential oracle'),
     'C05': ('exploration',
             'generated histories over all 12 decorator classes x maxsize spellings (positional/keyword, 0, None, 1..6) x purge x 18 backends; per-call size predicate taken from the property statement; finds violations, cannot prove absence',
             'sizes observed via len(f.__cache__()) and f.info().size; bounded history length (<=60 ops) and pool size (<=8 keys)',
